@@ -137,6 +137,9 @@ void parallel(int n, const std::function< void(int) > &fn);
 // given non-zero byte, so that a decision taken on uninitialised memory
 // behaves the same in a reused worker and in a fresh replay process
 void scrub_memory(int byte);
+// memcheck errors reported so far in this process (0 outside valgrind)
+long valgrind_errors();
+bool on_valgrind();
 
 // simulated clocks
 void clock_set(double t);
